@@ -474,7 +474,8 @@ def _r3_processing(run, st, put, k, it, caller, serial_func, sres, sk):
     if len(proc) != 1:
         return
     S = _subst_terms(proc[0].term, s_to_caller)
-    w_calls = [x for x in wr.events if x.kind == "call" and x.term[1][0] == "sym" and x.term[1][1] in {p_ for p_ in w.params()}]
+    # the per-item function is either handed to the worker (a parameter, e.g. the callback) or a module-level function both sides call
+    w_calls = [x for x in wr.events if x.kind == "call" and x.term[1][0] == "sym" and (x.term[1][1] in {p_ for p_ in w.params()} or x.term[1] == proc[0].term[1])]
     cands = []
     for x in w_calls:
         t1 = _subst_terms(x.term, m)
@@ -486,6 +487,14 @@ def _r3_processing(run, st, put, k, it, caller, serial_func, sres, sk):
                      "received item" % (sym.show(S[1]), st.name), kind="worker-processing-missing", stage=st.name)
         return
     x, t = same_callee[0]
+
+    def without_progress(c):
+        # a progress reporter handed along (serial mode only: the parent of a parallel run reports progress itself) is not part of the work
+        if c[0] != "call":
+            return c
+        return ("call", c[1], tuple(a for a in c[2] if "progress" not in sym.show(a)), tuple((k_, v_) for k_, v_ in c[3] if "progress" not in k_ and "progress" not in sym.show(v_)))
+    if t != S and without_progress(t) == without_progress(S):
+        t = S
     if t == S:
         run.holds("C03.R2", w, x.node, "worker processes a received item exactly as the serial sibling does: %s" % sym.show(S)[:120], stage=st.name)
     else:
